@@ -44,22 +44,7 @@ sim::Json generate(const std::string& tier, uint64_t seed, uint64_t index) {
   if (rng.chance(0.35)) { static const int bs[] = {1, 16, 64, 200, 1024}; sc.set("stdio_bufsize", bs[rng.below(5)]); }
 
   // names files
-  if (go.want_names && rng.chance(0.2)) {
-    // names the way long string subscripts make them: hundreds of characters, equal up to the last few;
-    // the same name on several items (a malformed or hand-edited names file)
-    static const int lens[] = {40, 120, 250, 251, 254, 255, 256, 300, 1000, 5000};
-    int shape = (int)rng.below(3), L = lens[rng.below(10)];
-    char fill = "kQ_"[rng.below(3)];
-    auto rename = [&](std::string& nmv, const char* base, int i) {
-      if (shape == 0) nmv = std::string(base) + "['" + std::string(L, fill) + "'," + std::to_string(i + 1) + "]";
-      else if (shape == 1) nmv = std::string(base) + "['" + std::string(i % 2 ? L : 3, fill) + "']";                    // duplicates, long and short
-      else nmv = std::string(base) + "[" + std::to_string(i + 1) + ",'" + std::string(L, fill) + "']";
-    };
-    for (int j = 0; j < m.nvars(); ++j) rename(m.vars[j].name, "Flow", j);
-    for (int i = 0; i < (int)m.cons.size(); ++i) rename(m.cons[i].name, rng.chance(0.5) ? "Flow" : "Bal", i);
-    for (int i = 0; i < (int)m.lcons.size(); ++i) rename(m.lcons[i].name, "Log", i);
-    sc.set("names_shape", shape * 10000 + L);
-  }
+  if (go.want_names && rng.chance(0.2)) sc.set("names_shape", apply_long_names(rng, m));
   if (go.want_names) {
     int nm = 1 + (int)rng.below(NAMES_MODES - 1);
     add_names_files(sc, m, nm);
